@@ -64,6 +64,7 @@ DEFECT_CLAUSES = {
     "JustF2": {"UndecodableRaises", "NeverCompleteWhenOwed"},
     "JustF3": {"UndecodableRaises", "NeverCompleteWhenOwed"},
     "JustF4": {"ConnNotReused"},
+    "JustPW": {"CutNeverComplete", "NeverCompleteWhenOwed"},
 }
 
 
@@ -520,6 +521,43 @@ def nontrivial_key(run, trace):
         return None
     return (c["coding"], c["framing"], c.get("size", str(c.get("members"))), bool(c.get("decode", True)), dm.get("kind"),
             dm.get("at"), c.get("seg"), ops)
+
+
+# ---------------------------------------------------------------------------------------------- the LARGE size class
+LARGE_SIZES = [2 ** 20 + 1, 3 * 2 ** 20 + 17]
+
+
+def large_runs(damaged, quick, seed):
+    """Bodies of more than 1 MiB (Body.tla's size class "large": unbounded reads with more than max_chunk_amt of
+    Content-Length outstanding).  Intact (C12): every API must deliver every byte.  Damaged (C13): cut after the
+    first byte, in the middle, just past the first MiB and before the last byte, through the unbounded reads
+    (read(), preload, read(n) then read()) and the sized / streaming ones."""
+    rng = random.Random(seed * 6151 + 77)
+    codings = ["identity", "gzip"] if quick else ["identity", "gzip", "zstd", "deflate", "gzip-mm"]
+    big = 65536
+    apis = [([("read", 0)], None, False), ([], None, True), ([("readn", 1000), ("read", 0)], None, False),
+            ([("readn", big)], ("readn", big), False), ([("read1n", big)], ("read1n", big), False),
+            ([("read1", 0)], ("read1", 0), False), ([("stream", big)], ("stream", big), False),
+            ([("readinto", 70000)], ("readinto", 70000), False), ([("readn", 300000), ("read", 0)], None, False)]
+    runs = []
+    for size in LARGE_SIZES:
+        for coding in codings:
+            for framing in ("cl", "chunked"):
+                base = {"size": size, "pseed": seed, "coding": coding, "framing": framing, "chunks": "big", "ext": False,
+                        "decode": True, "seg": rng.choice([None, 65536, 16384])}
+                mine = list(apis) + ([([("chunked", big)], ("chunked", big), False)] if framing == "chunked" else [])
+                if not damaged:
+                    for ops, drain, preload in (mine if not quick else rng.sample(mine, 5) + mine[:2]):
+                        runs.append({"case": dict(base), "ops": list(ops), "drain": drain or ("readn", big), "preload": preload,
+                                     "after": [("readn", 7)] if not preload else None})
+                    continue
+                nw = len(bg.build(base)["wire"])
+                cuts = sorted({1, nw // 2, min(nw - 2, 2 ** 20 + 4096), nw - 1})
+                for at in cuts:
+                    for ops, drain, preload in (mine if not quick else mine[:3] + rng.sample(mine[3:], 2)):
+                        runs.append({"case": dict(base, damage={"kind": "cut", "at": at}), "ops": list(ops),
+                                     "drain": drain or ("readn", big), "preload": preload})
+    return runs
 
 
 # ---------------------------------------------------------------------------------------------- model replays -> runs
